@@ -433,7 +433,9 @@ func (s *Store[H]) DeleteRange(ctx context.Context, from, to uint64) error {
 		// moves in ascending order from --> to, so if we made any progress deleting headers
 		// `from` --> `actualTo`, we must always update the head to be one below `from` (which was deleted)
 		// to preserve contiguity (regardless of whether a partial delete occurred)
-		if actualTo > from {
+		// (parallel workers may have removed headers above a failed height, even above `from`)
+		parallel := to-from >= deleteRangeParallelThreshold
+		if actualTo > from || (deleteErr != nil && parallel) {
 			newHeadHeight := from - 1
 			if err := s.setHead(ctx, s.ds, newHeadHeight); err != nil {
 				return errors.Join(
